@@ -46,6 +46,18 @@ Proof.
 Qed.
 Print Assumptions C17_sign_verify.
 
+(* the k256 back-end's recover (which normalises s first, fix 378a736) coincides with plain recover on
+   normalised signatures, so C17_sign_recover covers it as well (sign produces s <= n/2) *)
+Theorem C17_normalising_recover_same_on_low_s :
+  forall (point : Type) (pt_eqb : point -> point -> bool) (add : point -> point -> point)
+         (zero : point) (smul : Z -> point -> point) (G : point) (n : Z)
+         (x_of : point -> Z) (lift_x : Z -> bool -> option point) (A : rules) (sig msg : bytes),
+    is_high n (sig_s (fst (decode_signature sig))) = false ->
+    recover_norm point pt_eqb add zero smul G n x_of lift_x A sig msg =
+    recover point pt_eqb add zero smul G n x_of lift_x A sig msg.
+Proof. exact recover_norm_low_s. Qed.
+Print Assumptions C17_normalising_recover_same_on_low_s.
+
 (* produced signatures are normalised: s <= n/2; since n < 2^256 the top bit of s is free, the
    encoder does not hit its "Non-normalized signature" assertion and decoding gives (r,s,parity) back *)
 Theorem C17_normalised :
